@@ -317,7 +317,7 @@ def run(tier: str, seed: int, t0: float) -> int:
             stats.notes.append("probing stopped after %d watchdog timeouts" % TIMEOUTS["n"])
             break
         if stats.counts.get(key, 0) < least:
-            raise core.MachineryError(f"vacuity gate: {key}={stats.counts.get(key, 0)} < {least}")
+            core.vacuity(out, f"vacuity gate: {key}={stats.counts.get(key, 0)} < {least}")
     return core.finish("C19", tier, seed, stats, out, t0,
                        rule="(a) HTML fragments: every well-nested fragment of <= 3/4 nodes over four tag vocabularies (block, inline+attributes+styles, list, table/ignorable/unknown) "
                             "enumerated by TLC + hand-made edge cases; (c)/(d) every TLC-generated bundled document and random bundled documents: serialise, tokenize, parse back; "
